@@ -134,6 +134,8 @@ where
     sk.get_signature().clone()
 }
 
+static ESTIMATOR_MISMATCH: std::sync::Mutex<Option<String>> = std::sync::Mutex::new(None);
+
 /// collision fractions of T disjoint labellings of the shape, on the real sketcher
 fn empirical(cfg: &Cfg, base: u64) -> Vec<f64> {
     let u = cfg.n1 + cfg.n2 + cfg.n12;
@@ -144,16 +146,28 @@ fn empirical(cfg: &Cfg, base: u64) -> Vec<f64> {
             let o = base.wrapping_add(t * u.max(1));
             let ra = [(o, o + cfg.n1), (o + cfg.n1 + cfg.n2, o + u)];
             let rb = [(o + cfg.n1, o + cfg.n1 + cfg.n2), (o + cfg.n1 + cfg.n2, o + u)];
-            let eq = if cfg.wide {
+            // the fraction is counted here and, independently, by the crate's own estimator: they must agree exactly
+            fn both<I: PartialEq + std::fmt::Debug + Sync + Send>(sa: &[I], sb: &[I]) -> f64 {
+                let eq = sa.iter().zip(sb.iter()).filter(|(x, y)| x == y).count();
+                let mine = eq as f64 / sa.len() as f64;
+                let lib = probminhash::jaccard::get_jaccard_index_estimate(sa, sb).unwrap_or(f64::NAN);
+                if lib != mine {
+                    let mut g = ESTIMATOR_MISMATCH.lock().unwrap();
+                    if g.is_none() {
+                        *g = Some(format!("{} equal registers of {}: jaccard::get_jaccard_index_estimate returns {} instead of {}", eq, sa.len(), lib, mine));
+                    }
+                }
+                mine
+            }
+            if cfg.wide {
                 let sa = sketch_range::<u32>(params, &ra, cfg.history);
                 let sb = sketch_range::<u32>(params, &rb, 0);
-                sa.iter().zip(sb.iter()).filter(|(x, y)| x == y).count()
+                both(&sa, &sb)
             } else {
                 let sa = sketch_range::<u16>(params, &ra, cfg.history);
                 let sb = sketch_range::<u16>(params, &rb, 0);
-                sa.iter().zip(sb.iter()).filter(|(x, y)| x == y).count()
-            };
-            eq as f64 / cfg.m as f64
+                both(&sa, &sb)
+            }
         })
         .collect()
 }
@@ -220,6 +234,11 @@ fn collision_configs(quick: bool) -> Vec<Cfg> {
         for &(n1, n2, n12) in &[(100u64, 100u64, 100u64), (1, 50, 5), (0, 0, 3), (1, 1, 1), (3, 2, 1), (1, 0, 1)] {
             out.push(Cfg { b, a, q, m: 64, wide: false, n1, n2, n12, t: if quick { 4000 } else { 40_000 }, history: 0 });
         }
+    }
+    // very large sketches (sizes that are neither small nor a multiple of a power of two): identical sets and a balanced pair
+    for &m in &[140_001u64, 70_001] {
+        out.push(Cfg { b: 1.001, a: 20., q: 65534, m, wide: false, n1: 0, n2: 0, n12: 40, t: 4, history: 0 });
+        out.push(Cfg { b: 1.001, a: 20., q: 65534, m, wide: m > 100_000, n1: 30, n2: 30, n12: 30, t: if quick { 6 } else { 40 }, history: 0 });
     }
     // the sketch of the first set comes about through a history (refused merge halfway, reuse after reinit, merge of halves)
     for history in 1..=3u8 {
@@ -463,11 +482,35 @@ pub fn run(ctx: &Ctx) -> i32 {
         }
         details.push(json!({"cfg": cfg_json(cfg), "model_p": o.p, "empirical": o.mean, "se": o.se, "z": o.z, "confirmed_violation": confirmed}));
     }
+    // with a trace-level logger installed (log macros evaluate their arguments only then): every k/m for m <= 48, all bases
+    {
+        let bad = crate::common::with_trace_logging(|| {
+            for &b in &b_list() {
+                for m in 1..=48u64 {
+                    for k in 0..=m {
+                        let jac = k as f64 / m as f64;
+                        match bounds(b, jac) {
+                            BoundsRes::Ok(lo, hi) if lo <= hi + 1e-9 => {}
+                            BoundsRes::Ok(lo, hi) => return Some(format!("b={} jac={}: lower {} > upper {}", b, jac, lo, hi)),
+                            BoundsRes::Panic(p) => return Some(format!("b={} jac={}: {}", b, jac, p)),
+                        }
+                    }
+                }
+            }
+            None
+        });
+        if let Some(w) = bad {
+            ctx.violation("totality:logging", &format!("get_jaccard_bounds with a trace-level logger installed: {}", w), json!({"kind": "logging"}));
+        }
+    }
+    if let Some(w) = ESTIMATOR_MISMATCH.lock().unwrap().clone() {
+        ctx.violation("collision-fraction:estimator-disagrees", &format!("the fraction of equal registers counted directly and by the crate's estimator differ: {}", w), json!({"kind": "estimator"}));
+    }
     println!("C07 collisions: {} configurations, {} register pairs, max |z| = {:.2}", cfgs.len(), pairs, maxz);
     let coverage = json!({
         "evaluations": calls + admissible + pairs,
         "distinct_nontrivial": calls + admissible,
-        "rule": "(3) totality: every collision fraction k/m for m<=2048 (12000) plus bands near 0 and 1 for m up to 2^32 and 3x4096 neighbouring floats, for 8 values of b in (1,2]: the real get_jaccard_bounds must return with lo<=hi+1e-9 (each k/m,b is a distinct case); (2) bracket: all triples over {0,1,2,3,5,10,30,100,1e3,1e4,1e6}^3 x 8 b admissible by the clip precondition: model collision probability in, real bounds out, lo-1e-4<=J<=hi+1e-4; (1) collisions: T disjoint labellings of each set shape by consecutive identifiers of a seeded block, real sketcher, mean collision fraction vs the closed-form model within 6 standard errors, confirmed on a 4x larger fresh block before reporting; 36 of the configurations build the first sketch through a history (a merge with an incompatible sketcher attempted and refused halfway through the stream, reuse after reinit, merge of two half-stream sketchers)",
+        "rule": "(3) totality: every collision fraction k/m for m<=2048 (12000) plus bands near 0 and 1 for m up to 2^32 and 3x4096 neighbouring floats, for 8 values of b in (1,2]: the real get_jaccard_bounds must return with lo<=hi+1e-9 (each k/m,b is a distinct case); (2) bracket: all triples over {0,1,2,3,5,10,30,100,1e3,1e4,1e6}^3 x 8 b admissible by the clip precondition: model collision probability in, real bounds out, lo-1e-4<=J<=hi+1e-4; (1) collisions: T disjoint labellings of each set shape by consecutive identifiers of a seeded block, real sketcher, mean collision fraction vs the closed-form model within 6 standard errors, confirmed on a 4x larger fresh block before reporting; 36 of the configurations build the first sketch through a history (a merge with an incompatible sketcher attempted and refused halfway through the stream, reuse after reinit, merge of two half-stream sketchers); 4 configurations use sketches of 70 001 and 140 001 registers; in every run the fraction counted by the harness must equal the one returned by jaccard::get_jaccard_index_estimate",
         "samples": [
             {"totality": {"b": 1.001, "jac": "999976/1000000"}},
             {"bracket": {"b": 1.2, "n1": 100, "n2": 1000, "n12": 30}},
